@@ -178,6 +178,11 @@ m("c17-hasseb-stale-response-not-cleared", "C17", HID, "            # that becom
 m("c20-tridonic-watch-only-when-subscribed", "C20", HID, "        elif data[0] == self._MODE_OBSERVE:\n            # Something happened that we didn't initiate with a command\n            self._bus_watch_data.append(data)\n            self._bus_watch_data_available.set()",
   "        elif data[0] == self._MODE_OBSERVE:\n            # Something happened that we didn't initiate with a command\n            if self.bus_traffic._callbacks:\n                self._bus_watch_data.append(data)\n                self._bus_watch_data_available.set()")
 
+m("c15-serial-progress-exception-swallowed", "C15", SER, "                        if progress:\n                            progress(cmd)",
+  "                        if progress:\n                            try:\n                                progress(cmd)\n                            except Exception:\n                                pass")
+m("c15-hid-lock-kept-when-progress-raises", "C15", HID, "                    if progress:\n                        progress(cmd)",
+  "                    if progress:\n                        try:\n                            progress(cmd)\n                        except Exception:\n                            await self.transaction_lock.acquire()\n                            raise")
+
 
 def run_one(job):
     mid, prop, path, old, new = job
